@@ -1051,4 +1051,5 @@ func runC10(c *Ctx) {
 		return
 	}
 	c10StressF4(c, c.Pick(300, 5000))
+	c10RedundantOpen(c)
 }
